@@ -78,6 +78,11 @@ def get_api(
     )
     walker = ASTWalker(handler=callable_visitor)
 
+    # The reexports of all package files have to be known before the first declaration is analysed
+    for tree in mypy_asts:
+        if Path(tree.path).name == "__init__.py":
+            callable_visitor.collect_reexports(tree)
+
     for tree in mypy_asts:
         walker.walk(tree=tree)
 
